@@ -1,6 +1,1375 @@
-//! C04 — not built yet.
-use crate::core::Ctx;
+//! C04 — rational arithmetic is exact and RBig stays in lowest terms.
+//!
+//! Sweeps: closed universe Q(N,D)² for + - * / % (all six call forms), Euclidean division, RBig and Relaxed (every stored non-reduced spelling); Q x integers for the mixed
+//! operators on either side (UBig and IBig, four call forms); unary functions, pow and the
+//! constructors; shape fractions with shared multi-word factors in every placement; histories
+//! (BFS over a pool of two rationals and one integer, results fed back through in-place forms).
+//! Oracle: exact fractions over num_bigint (`h04::Q`), cross-checked against checked i128
+//! arithmetic.  Invariants of every RBig produced: denominator >= 1, gcd = 1, zero = 0/1.
+
+#[path = "h04.rs"]
+mod h04;
+
+use crate::core::{guard, is_internal_panic, trunc, Ctx, Rec};
+use crate::h::unflatten;
+use crate::uni::*;
+use dashu_base::{Abs, DivEuclid, DivRemEuclid, Inverse, RemEuclid, Sign};
+use dashu_int::{DoubleWord, IBig, UBig};
+use dashu_ratio::{RBig, Relaxed};
+use h04::*;
+use num_bigint::BigInt;
+use num_integer::Integer;
+use num_traits::{One, Signed, ToPrimitive, Zero};
+
+const P: &str = "C04";
+
+type Forms<T> = Vec<(&'static str, Result<T, String>)>;
+/// (integer type, integer on the left?, form, result)
+type MixForms<T> = Vec<(&'static str, bool, &'static str, Result<T, String>)>;
+
+const OPS: [&str; 5] = ["add", "sub", "mul", "div", "rem"];
+const SYM: [&str; 5] = ["+", "-", "*", "/", "%"];
+
+macro_rules! six {
+    ($a:ident, $b:ident, $o:tt, $oa:tt) => {
+        vec![
+            ("(val,val)", guard(|| $a.clone() $o $b.clone())),
+            ("(val,ref)", guard(|| $a.clone() $o $b)),
+            ("(ref,val)", guard(|| $a $o $b.clone())),
+            ("(ref,ref)", guard(|| $a $o $b)),
+            ("_assign(val)", guard(|| { let mut t = $a.clone(); t $oa $b.clone(); t })),
+            ("_assign(ref)", guard(|| { let mut t = $a.clone(); t $oa $b; t })),
+        ]
+    };
+}
+macro_rules! four {
+    ($out:ident, $ty:expr, $left:expr, $l:ident, $r:ident, $o:tt) => {
+        $out.push(($ty, $left, "(val,val)", guard(|| $l.clone() $o $r.clone())));
+        $out.push(($ty, $left, "(val,ref)", guard(|| $l.clone() $o $r)));
+        $out.push(($ty, $left, "(ref,val)", guard(|| $l $o $r.clone())));
+        $out.push(($ty, $left, "(ref,ref)", guard(|| $l $o $r)));
+    };
+}
+macro_rules! four_m {
+    ($l:ident, $r:ident, $m:ident) => {
+        vec![
+            ("(val,val)", guard(|| $l.clone().$m($r.clone()))),
+            ("(val,ref)", guard(|| $l.clone().$m($r))),
+            ("(ref,val)", guard(|| $l.$m($r.clone()))),
+            ("(ref,ref)", guard(|| $l.$m($r))),
+        ]
+    };
+}
+
+/// history transitions (see `history`)
+#[derive(Clone, Copy, Debug, PartialEq, Eq)]
+enum Tr {
+    /// r[dst] = r[dst] op r[src], op in + - * / %
+    RR(u8, u8, u8),
+    /// r[slot] = r[slot] op k   (or k op r[slot] when the flag is set), op in + - * /
+    RI(u8, u8, bool),
+    /// r[slot] = f(r[slot]), f in neg inv sqr fract
+    Un(u8, u8),
+    /// k = trunc(r[slot]) | round(r[slot]) | r[0].div_euclid(r[1])
+    K(u8, u8),
+}
+/// history: numerators, denominators and the integer are pruned above this many bits
+const HCAP: u32 = 62;
+const UN: [&str; 4] = ["neg", "inv", "sqr", "fract"];
+const KN: [&str; 3] = ["trunc", "round", "div_euclid"];
+
+trait Rat: Clone + Default + std::fmt::Debug {
+    const NAME: &'static str;
+    const STRICT: bool;
+    fn mk(n: &BigInt, d: &BigInt) -> Self;
+    fn parts(&self) -> (BigInt, BigInt);
+    fn forms_rr(op: u8, a: &Self, b: &Self) -> Forms<Self>;
+    fn forms_ri(op: u8, x: &Self, i: &IBig, left: bool) -> MixForms<Self>;
+    fn forms_un(op: u8, x: &Self) -> Forms<Self>;
+    fn forms_k(kind: u8, slot: usize, pool: &[Self; 2]) -> Forms<IBig>;
+    fn forms_rem_euclid(a: &Self, b: &Self) -> Forms<Self>;
+    fn forms_div_rem_euclid(a: &Self, b: &Self) -> Forms<(IBig, Self)>;
+    fn pow(&self, e: usize) -> Self;
+    fn cubic(&self) -> Self;
+    fn abs_val(self) -> Self;
+    fn signum(&self) -> Self;
+    fn mul_sign(self, s: Sign) -> Self;
+    fn ints(&self) -> [IBig; 4]; // floor ceil trunc round
+    fn split(self) -> (IBig, Self);
+    fn flags(&self) -> (bool, bool); // is_zero, is_one
+    fn apply(pool: &mut [Self; 2], k: &mut IBig, tr: Tr);
+}
+
+macro_rules! impl_rat {
+    ($T:ty, $name:expr, $strict:expr) => {
+        impl Rat for $T {
+            const NAME: &'static str = $name;
+            const STRICT: bool = $strict;
+            fn mk(n: &BigInt, d: &BigInt) -> Self {
+                <$T>::from_parts(ref_to_i(n), ref_to_u(d.magnitude()))
+            }
+            fn parts(&self) -> (BigInt, BigInt) {
+                (i_to_ref(self.numerator()), BigInt::from(u_to_ref(self.denominator())))
+            }
+            fn forms_rr(op: u8, a: &Self, b: &Self) -> Forms<Self> {
+                match op {
+                    0 => six!(a, b, +, +=),
+                    1 => six!(a, b, -, -=),
+                    2 => six!(a, b, *, *=),
+                    3 => six!(a, b, /, /=),
+                    _ => six!(a, b, %, %=),
+                }
+            }
+            fn forms_ri(op: u8, x: &Self, i: &IBig, left: bool) -> MixForms<Self> {
+                let mut out: MixForms<Self> = Vec::with_capacity(8);
+                let u: Option<UBig> = if i.sign() == Sign::Positive { Some(i.clone().try_into().unwrap()) } else { None };
+                match (op, left) {
+                    (0, false) => { four!(out, "IBig", false, x, i, +); if let Some(u) = &u { four!(out, "UBig", false, x, u, +); } }
+                    (1, false) => { four!(out, "IBig", false, x, i, -); if let Some(u) = &u { four!(out, "UBig", false, x, u, -); } }
+                    (2, false) => { four!(out, "IBig", false, x, i, *); if let Some(u) = &u { four!(out, "UBig", false, x, u, *); } }
+                    (_, false) => { four!(out, "IBig", false, x, i, /); if let Some(u) = &u { four!(out, "UBig", false, x, u, /); } }
+                    (0, true) => { four!(out, "IBig", true, i, x, +); if let Some(u) = &u { four!(out, "UBig", true, u, x, +); } }
+                    (1, true) => { four!(out, "IBig", true, i, x, -); if let Some(u) = &u { four!(out, "UBig", true, u, x, -); } }
+                    (2, true) => { four!(out, "IBig", true, i, x, *); if let Some(u) = &u { four!(out, "UBig", true, u, x, *); } }
+                    (_, true) => { four!(out, "IBig", true, i, x, /); if let Some(u) = &u { four!(out, "UBig", true, u, x, /); } }
+                }
+                out
+            }
+            fn forms_un(op: u8, x: &Self) -> Forms<Self> {
+                match op {
+                    0 => vec![("(val)", guard(|| -x.clone())), ("(ref)", guard(|| -x))],
+                    1 => vec![("(val)", guard(|| x.clone().inv())), ("(ref)", guard(|| x.inv()))],
+                    2 => vec![("", guard(|| x.sqr()))],
+                    _ => vec![("", guard(|| x.fract()))],
+                }
+            }
+            fn forms_k(kind: u8, slot: usize, pool: &[Self; 2]) -> Forms<IBig> {
+                let (a, b) = (&pool[0], &pool[1]);
+                match kind {
+                    0 => vec![("", guard(|| pool[slot].trunc()))],
+                    1 => vec![("", guard(|| pool[slot].round()))],
+                    _ => four_m!(a, b, div_euclid),
+                }
+            }
+            fn forms_rem_euclid(a: &Self, b: &Self) -> Forms<Self> {
+                four_m!(a, b, rem_euclid)
+            }
+            fn forms_div_rem_euclid(a: &Self, b: &Self) -> Forms<(IBig, Self)> {
+                four_m!(a, b, div_rem_euclid)
+            }
+            fn pow(&self, e: usize) -> Self {
+                <$T>::pow(self, e)
+            }
+            fn cubic(&self) -> Self {
+                <$T>::cubic(self)
+            }
+            fn abs_val(self) -> Self {
+                Abs::abs(self)
+            }
+            fn signum(&self) -> Self {
+                <$T>::signum(self)
+            }
+            fn mul_sign(self, s: Sign) -> Self {
+                self * s
+            }
+            fn ints(&self) -> [IBig; 4] {
+                [self.floor(), self.ceil(), self.trunc(), self.round()]
+            }
+            fn split(self) -> (IBig, Self) {
+                self.split_at_point()
+            }
+            fn flags(&self) -> (bool, bool) {
+                (self.is_zero(), self.is_one())
+            }
+            fn apply(pool: &mut [Self; 2], k: &mut IBig, tr: Tr) {
+                match tr {
+                    Tr::RR(op, d, s) => {
+                        let src = pool[s as usize].clone();
+                        let dst = &mut pool[d as usize];
+                        // by reference when the slots differ, by value when a slot meets itself
+                        match (op, d == s) {
+                            (0, false) => *dst += &src,
+                            (1, false) => *dst -= &src,
+                            (2, false) => *dst *= &src,
+                            (3, false) => *dst /= &src,
+                            (_, false) => *dst %= &src,
+                            (0, true) => *dst += src,
+                            (1, true) => *dst -= src,
+                            (2, true) => *dst *= src,
+                            (3, true) => *dst /= src,
+                            (_, true) => *dst %= src,
+                        }
+                    }
+                    Tr::RI(op, s, left) => {
+                        let v = std::mem::take(&mut pool[s as usize]);
+                        pool[s as usize] = match (op, left) {
+                            (0, false) => v + &*k,
+                            (1, false) => v - &*k,
+                            (2, false) => v * &*k,
+                            (_, false) => v / &*k,
+                            (0, true) => &*k + v,
+                            (1, true) => &*k - v,
+                            (2, true) => &*k * v,
+                            (_, true) => &*k / v,
+                        };
+                    }
+                    Tr::Un(op, s) => {
+                        let v = std::mem::take(&mut pool[s as usize]);
+                        pool[s as usize] = match op {
+                            0 => -v,
+                            1 => v.inv(),
+                            2 => v.sqr(),
+                            _ => v.fract(),
+                        };
+                    }
+                    Tr::K(kind, s) => {
+                        *k = match kind {
+                            0 => pool[s as usize].trunc(),
+                            1 => pool[s as usize].round(),
+                            _ => (&pool[0]).div_euclid(&pool[1]),
+                        };
+                    }
+                }
+            }
+        }
+    };
+}
+impl_rat!(RBig, "RBig", true);
+impl_rat!(Relaxed, "Relaxed", false);
+
+fn dbg<T: std::fmt::Debug>(v: &T) -> String {
+    guard(|| trunc(&format!("{:?}", v), 300)).unwrap_or_else(|p| format!("<Debug panicked: {}>", p))
+}
+
+fn show_parts(n: &BigInt, d: &BigInt) -> String {
+    format!("{}/{}", num(n), num(d))
+}
+
+/// Judge one rational result given as (numerator, denominator) read through the accessors.
+#[allow(clippy::too_many_arguments)]
+fn judge_parts(rec: &mut Rec, tname: &str, strict: bool, site: &dyn Fn() -> String, class: &str, got: Result<(BigInt, BigInt), String>, want: &Q, case: &dyn Fn() -> String) -> bool {
+    rec.step();
+    let (n, d) = match got {
+        Ok(x) => x,
+        Err(p) => {
+            let kind = if is_internal_panic(&p) { "internal-panic" } else { "panic" };
+            rec.fail(format!("{}|{}|{}|{}", P, site(), kind, class), case(), format!("panic: {}", p), want.show());
+            return false;
+        }
+    };
+    let _ = tname;
+    if d.is_zero() {
+        rec.fail(format!("{}|{}|zero-denominator|{}", P, site(), class), case(), show_parts(&n, &d), want.show());
+        return false;
+    }
+    if n == want.n && d == want.d {
+        // identical to the normalised reference: right value, lowest terms, positive denominator
+        return true;
+    }
+    if &n * &want.d != &want.n * &d {
+        rec.fail(format!("{}|{}|wrong-value|{}", P, site(), class), case(), show_parts(&n, &d), want.show());
+        return false;
+    }
+    // right value in a spelling other than the canonical one
+    if strict {
+        let kind = if n.is_zero() { "zero-not-0/1" } else { "not-reduced" };
+        rec.fail(format!("{}|{}|{}|{}", P, site(), kind, class), case(), show_parts(&n, &d), format!("{} (lowest terms, zero as 0/1)", show_parts(&want.n, &want.d)));
+        return false;
+    }
+    if n.is_zero() {
+        rec.hit("unspecified:Relaxed zero stored as 0/d, d>1 (not judged)");
+    } else {
+        if n.is_even() && d.is_even() {
+            rec.hit("unspecified:Relaxed result keeps a common factor 2 (not judged)");
+        }
+        rec.hit("relaxed:result-stored-unreduced");
+    }
+    true
+}
+
+fn judge<T: Rat>(rec: &mut Rec, site: &dyn Fn() -> String, class: &str, got: &Result<T, String>, want: &Q, case: &dyn Fn() -> String) -> bool {
+    judge_parts(rec, T::NAME, T::STRICT, site, class, got.as_ref().map(|v| v.parts()).map_err(|e| e.clone()), want, case)
+}
+
+fn judge_int(rec: &mut Rec, site: &dyn Fn() -> String, class: &str, got: &Result<IBig, String>, want: &BigInt, case: &dyn Fn() -> String) -> bool {
+    rec.step();
+    match got {
+        Ok(g) => {
+            let g = i_to_ref(g);
+            if &g != want {
+                rec.fail(format!("{}|{}|wrong-value|{}", P, site(), class), case(), num(&g), num(want));
+                return false;
+            }
+            true
+        }
+        Err(p) => {
+            let kind = if is_internal_panic(p) { "internal-panic" } else { "panic" };
+            rec.fail(format!("{}|{}|{}|{}", P, site(), kind, class), case(), format!("panic: {}", p), num(want));
+            false
+        }
+    }
+}
+
+/// division by zero must panic with the documented message, not an internal assertion
+fn expect_div0<T: std::fmt::Debug>(rec: &mut Rec, site: &dyn Fn() -> String, _class: &str, got: &Result<T, String>, case: &dyn Fn() -> String) -> bool {
+    // the input class of a division by zero is the zero divisor itself, whatever the universe
+    let class = "zero-divisor";
+    rec.step();
+    match got {
+        Ok(v) => {
+            rec.fail(format!("{}|{}|missing-panic|{}", P, site(), class), case(), format!("returned {}", dbg(v)), "panic (division by zero)");
+            false
+        }
+        Err(p) => {
+            if is_internal_panic(p) {
+                rec.fail(format!("{}|{}|internal-panic|{}", P, site(), class), case(), format!("panic: {}", p), "the documented division-by-zero panic, not an internal assertion/overflow");
+                return false;
+            }
+            true
+        }
+    }
+}
+
+/// judge every call form of one operation; only the first failing form of a case is reported
+fn check_forms<T: Rat>(rec: &mut Rec, op: &str, class: &str, forms: Forms<T>, want: &Option<Q>, case: &dyn Fn() -> String) -> bool {
+    for (f, got) in &forms {
+        let site = || format!("{}::{}{}", T::NAME, op, f);
+        let ok = match want {
+            Some(w) => judge::<T>(rec, &site, class, got, w, case),
+            None => expect_div0(rec, &site, class, got, case),
+        };
+        if !ok {
+            return false;
+        }
+    }
+    true
+}
+
+fn check_mix<T: Rat>(rec: &mut Rec, op: &str, class: &str, forms: MixForms<T>, want: &Option<Q>, case: &dyn Fn() -> String) -> bool {
+    for (ity, left, f, got) in &forms {
+        let site = || if *left { format!("{}::{}<{}>{}", ity, op, T::NAME, f) } else { format!("{}::{}<{}>{}", T::NAME, op, ity, f) };
+        let ok = match want {
+            Some(w) => judge::<T>(rec, &site, class, got, w, case),
+            None => expect_div0(rec, &site, class, got, case),
+        };
+        if !ok {
+            return false;
+        }
+    }
+    true
+}
+
+fn check_int_forms<T: Rat>(rec: &mut Rec, op: &str, class: &str, forms: Forms<IBig>, want: &Option<BigInt>, case: &dyn Fn() -> String) -> bool {
+    for (f, got) in &forms {
+        let site = || format!("{}::{}{}", T::NAME, op, f);
+        let ok = match want {
+            Some(w) => judge_int(rec, &site, class, got, w, case),
+            None => expect_div0(rec, &site, class, got, case),
+        };
+        if !ok {
+            return false;
+        }
+    }
+    true
+}
+
+fn bin_wants(x: &Q, y: &Q) -> [Option<Q>; 5] {
+    [Some(x.add(y)), Some(x.sub(y)), Some(x.mul(y)), x.div(y), x.rem(y)]
+}
+
+/// the five operators in all forms + Euclidean division on one lane
+fn lane_binary<T: Rat>(rec: &mut Rec, a: &T, b: &T, x: &Q, y: &Q, wants: &[Option<Q>; 5], class: &str, all: bool, spelling: &str) {
+    for op in 0..5u8 {
+        let case = || format!("{} {} {}{}", x.show(), SYM[op as usize], y.show(), spelling);
+        let mut forms = T::forms_rr(op, a, b);
+        if !all {
+            forms.truncate(4);
+            forms.swap(0, 3);
+            forms.truncate(2); // (ref,ref) and (val,ref)
+        }
+        check_forms::<T>(rec, OPS[op as usize], class, forms, &wants[op as usize], &case);
+    }
+    let qe = x.div_euclid(y);
+    let re = x.rem_euclid(y);
+    let case = || format!("{} (euclid) {}{}", x.show(), y.show(), spelling);
+    let mut fk = T::forms_k(2, 0, &[a.clone(), b.clone()]);
+    let mut fr = T::forms_rem_euclid(a, b);
+    let mut fdr = T::forms_div_rem_euclid(a, b);
+    if !all {
+        fk.truncate(1);
+        fr.truncate(1);
+        fdr.truncate(1);
+    }
+    check_int_forms::<T>(rec, "div_euclid", class, fk, &qe, &case);
+    check_forms::<T>(rec, "rem_euclid", class, fr, &re, &case);
+    for (f, got) in &fdr {
+        let site_q = || format!("{}::div_rem_euclid{}.0", T::NAME, f);
+        let site_r = || format!("{}::div_rem_euclid{}.1", T::NAME, f);
+        let ok = match (&qe, &re, got) {
+            (Some(q), Some(r), Ok((gq, gr))) => judge_int(rec, &site_q, class, &Ok(gq.clone()), q, &case) && judge::<T>(rec, &site_r, class, &Ok(gr.clone()), r, &case),
+            (Some(_), Some(r), Err(p)) => judge::<T>(rec, &site_r, class, &Err(p.clone()), r, &case),
+            (_, _, got) => expect_div0(rec, &site_r, class, got, &case),
+        };
+        if !ok {
+            break;
+        }
+    }
+}
+
+/// outcome classes of one operand pair, inferred from the reference by the same conditions as the
+/// branches of add.rs / mul.rs / div.rs (read-only)
+fn pair_classes(rec: &mut Rec, x: &Q, y: &Q, wants: &[Option<Q>; 5]) {
+    let g = x.d.gcd(&y.d);
+    if g.is_one() {
+        rec.hit("add:gbd=1");
+    } else {
+        let nn = &x.n * (&y.d / &g) + &y.n * (&x.d / &g);
+        if nn.is_zero() {
+            rec.hit("add:gbd>1,zero-result");
+        } else {
+            let h = g.gcd(&nn);
+            rec.hit(if h.is_one() { "add:gbd>1,hint-gcd=1" } else if h == g { "add:gbd>1,hint-gcd=gbd" } else { "add:gbd>1,1<hint-gcd<gbd" });
+        }
+    }
+    if x == y {
+        rec.hit("sub:zero-result");
+    }
+    if x.is_zero() || y.is_zero() {
+        rec.hit("zero-numerator-operand");
+    } else {
+        let (g1, g2) = (x.n.gcd(&y.d), x.d.gcd(&y.n));
+        rec.hit(match (g1.is_one(), g2.is_one()) {
+            (true, true) => "mul:no-cross-cancel",
+            (false, false) => "mul:cross-cancel-both",
+            _ => "mul:cross-cancel-one",
+        });
+        let (g3, g4) = (x.n.gcd(&y.n), x.d.gcd(&y.d));
+        rec.hit(match (g3.is_one(), g4.is_one()) {
+            (true, true) => "div:no-cancel",
+            (false, false) => "div:cancel-both",
+            _ => "div:cancel-one",
+        });
+    }
+    if y.is_zero() {
+        rec.hit("div,rem:by-zero-panics");
+    } else {
+        if y.n.is_negative() {
+            rec.hit("div:negative-divisor");
+        }
+        let r = wants[4].as_ref().unwrap();
+        let t = wants[3].as_ref().unwrap();
+        let two = BigInt::from(2);
+        let twice: BigInt = &t.n * &two;
+        if r.is_zero() {
+            rec.hit("rem:zero");
+        } else if t.d == BigInt::from(2) {
+            rec.hit("rem:tie-rounds-away");
+        } else if { let dd: BigInt = &twice - t.round_half_away() * &two * &t.d; dd.is_positive() } == t.n.is_positive() {
+            rec.hit("rem:quotient-rounded-toward-zero");
+        } else {
+            rec.hit("rem:quotient-rounded-away");
+        }
+        if t.is_int() {
+            rec.hit("euclid:exact");
+        } else if x.n.is_negative() {
+            rec.hit("euclid:negative-dividend");
+        }
+    }
+    if x.is_int() || y.is_int() {
+        rec.hit("integer-valued-operand");
+    }
+}
+
+/// all reduced n/d with |n| <= nmax, 1 <= d <= dmax, simplest first
+fn q_universe(nmax: i64, dmax: i64) -> Vec<Q> {
+    let mut v: Vec<(i64, i64, i64, i64)> = vec![];
+    for d in 1..=dmax {
+        for n in -nmax..=nmax {
+            if (n.unsigned_abs()).gcd(&(d as u64)) == 1 || (n == 0 && d == 1) {
+                v.push((n.abs().max(d), d, n.abs(), if n < 0 { 1 } else { 0 }));
+            }
+        }
+    }
+    v.sort();
+    v.into_iter().map(|(_, d, n, s)| Q::small(if s == 1 { -n } else { n }, d)).collect()
+}
+
+fn scaled(x: &Q, k: i64) -> (BigInt, BigInt) {
+    (&x.n * k, &x.d * k)
+}
+
+fn self_check(ctx: &mut Ctx) {
+    // literal anchors from the dashu documentation / test-suite conventions
+    let lit = |a: (i64, i64), b: (i64, i64)| (Q::small(a.0, a.1), Q::small(b.0, b.1));
+    let (a, b) = lit((-1, 2), (1, 3));
+    let mut ok = a.rem(&b) == Some(Q::small(1, 6)) && a.div(&b) == Some(Q::small(-3, 2)) && a.add(&b) == Q::small(-1, 6);
+    let (a, b) = lit((1, 2), (-2, 3));
+    ok &= a.rem(&b) == Some(Q::small(-1, 6)) && a.div(&b) == Some(Q::small(-3, 4));
+    let (a, b) = lit((-10, 9), (-15, 4));
+    ok &= a.rem(&b) == Some(Q::small(-10, 9)) && a.div(&b) == Some(Q::small(8, 27)) && a.mul(&b) == Q::small(25, 6);
+    ok &= Q::small(22, 7).round_half_away() == BigInt::from(3) && Q::small(-5, 2).round_half_away() == BigInt::from(-3) && Q::small(-7, 2).floor() == BigInt::from(-4) && Q::small(-7, 2).ceil() == BigInt::from(-3) && Q::small(-7, 2).trunc() == BigInt::from(-3);
+    ok &= Q::small(-7, 2).div_euclid(&Q::small(-1, 1)) == Some(BigInt::from(4)) && Q::small(-7, 2).rem_euclid(&Q::small(-1, 1)) == Some(Q::small(1, 2));
+    if !ok {
+        ctx.machinery("reference self-check failed: Q disagrees with the documented literal cases");
+    }
+    // BigInt fractions vs checked-i128 fractions vs f64, gcd vs plain Euclid, on Q(9,9)^2
+    let u = q_universe(9, 9);
+    let mut bad = 0u64;
+    for x in &u {
+        for y in &u {
+            let (rx, ry) = (x.to_r(100).unwrap(), y.to_r(100).unwrap());
+            let f = |q: &Q| q.n.to_f64().unwrap() / q.d.to_f64().unwrap();
+            let pairs: [(Option<Q>, Option<R>, f64); 3] = [(Some(x.add(y)), r_add(rx, ry), f(x) + f(y)), (Some(x.sub(y)), r_sub(rx, ry), f(x) - f(y)), (Some(x.mul(y)), r_mul(rx, ry), f(x) * f(y))];
+            for (q, r, fl) in pairs {
+                let q = q.unwrap();
+                if Some(q.to_r(120).unwrap()) != r || (f(&q) - fl).abs() > 1e-9 || euclid_gcd(&q.n, &q.d) != BigInt::one() || q.d.is_negative() {
+                    bad += 1;
+                }
+            }
+            if !y.is_zero() {
+                let (q, r) = (x.div(y).unwrap(), x.rem(y).unwrap());
+                if Some(q.to_r(120).unwrap()) != r_div(rx, ry) || Some(r.to_r(120).unwrap()) != r_rem(rx, ry) || (f(&q) - f(x) / f(y)).abs() > 1e-9 {
+                    bad += 1;
+                }
+                // definition of %: |r| <= |y|/2 and (x - r)/y is an integer
+                if r.abs().mul(&Q::small(2, 1)).sub(&y.abs()).n.is_positive() || !x.sub(&r).div(y).unwrap().is_int() {
+                    bad += 1;
+                }
+                let (qe, re) = (x.div_euclid(y).unwrap(), x.rem_euclid(y).unwrap());
+                if re.n.is_negative() || !re.lt(&y.abs()) || Q::int(qe.clone()).mul(y).add(&re) != *x || qe.to_i128() != r_div_euclid(rx, ry) {
+                    bad += 1;
+                }
+            }
+            if x.n.gcd(&y.n) != euclid_gcd(&x.n, &y.n) {
+                bad += 1;
+            }
+        }
+    }
+    if bad != 0 {
+        ctx.machinery(format!("reference self-check failed: {} disagreements between BigInt fractions, i128 fractions, f64 and the definitions", bad));
+    }
+}
+
+// ---- SWEEPS ----
+
+fn nontrivial2(rec: &mut Rec, x: &Q, y: &Q) {
+    if !(x.trivial() && y.trivial()) {
+        rec.nontrivial();
+    }
+}
+
+/// one ordered pair of the closed universe: RBig lane + every stored Relaxed spelling
+fn closed_pair(rec: &mut Rec, x: &Q, y: &Q, ks: &[i64]) {
+    let wants = bin_wants(x, y);
+    let (a, b) = (RBig::mk(&x.n, &x.d), RBig::mk(&y.n, &y.d));
+    lane_binary::<RBig>(rec, &a, &b, x, y, &wants, "closed", true, "");
+    for &kx in ks {
+        for &ky in ks {
+            let ((xn, xd), (yn, yd)) = (scaled(x, kx), scaled(y, ky));
+            let (ra, rb) = (Relaxed::mk(&xn, &xd), Relaxed::mk(&yn, &yd));
+            let sp = if kx == 1 && ky == 1 { String::new() } else { format!(" [operands stored as {} and {}]", show_parts(&xn, &xd), show_parts(&yn, &yd)) };
+            if kx > 1 || ky > 1 {
+                rec.hit("relaxed:non-reduced-operand");
+            }
+            lane_binary::<Relaxed>(rec, &ra, &rb, x, y, &wants, "closed", true, &sp);
+            // a Relaxed result canonicalized is an RBig "ever produced"
+            for op in 0..4u8 {
+                if let Some(w) = &wants[op as usize] {
+                    let got = guard(|| {
+                        let r = match op {
+                            0 => &ra + &rb,
+                            1 => &ra - &rb,
+                            2 => &ra * &rb,
+                            _ => &ra / &rb,
+                        };
+                        r.canonicalize()
+                    });
+                    judge::<RBig>(rec, &|| format!("Relaxed::{}+canonicalize", OPS[op as usize]), "closed", &got, w, &|| format!("({} {} {}){}.canonicalize()", x.show(), SYM[op as usize], y.show(), sp));
+                }
+            }
+        }
+    }
+    pair_classes(rec, x, y, &wants);
+    nontrivial2(rec, x, y);
+}
+
+/// rational (op) integer and integer (op) rational, both integer types, four call forms
+fn mixed_case(rec: &mut Rec, x: &Q, i: &BigInt, ks: &[i64], class: &str) {
+    let qi = Q::int(i.clone());
+    let ii = ref_to_i(i);
+    let right: [Option<Q>; 4] = [Some(x.add(&qi)), Some(x.sub(&qi)), Some(x.mul(&qi)), x.div(&qi)];
+    let left: [Option<Q>; 4] = [Some(qi.add(x)), Some(qi.sub(x)), Some(qi.mul(x)), qi.div(x)];
+    let a = RBig::mk(&x.n, &x.d);
+    for op in 0..4u8 {
+        let case_r = || format!("{} {} int {}", x.show(), SYM[op as usize], num(i));
+        let case_l = || format!("int {} {} {}", num(i), SYM[op as usize], x.show());
+        check_mix::<RBig>(rec, OPS[op as usize], class, RBig::forms_ri(op, &a, &ii, false), &right[op as usize], &case_r);
+        check_mix::<RBig>(rec, OPS[op as usize], class, RBig::forms_ri(op, &a, &ii, true), &left[op as usize], &case_l);
+        for &k in ks {
+            let (xn, xd) = scaled(x, k);
+            let ra = Relaxed::mk(&xn, &xd);
+            let case_r = || format!("{} {} int {} [stored as {}]", x.show(), SYM[op as usize], num(i), show_parts(&xn, &xd));
+            let case_l = || format!("int {} {} {} [stored as {}]", num(i), SYM[op as usize], x.show(), show_parts(&xn, &xd));
+            check_mix::<Relaxed>(rec, OPS[op as usize], class, Relaxed::forms_ri(op, &ra, &ii, false), &right[op as usize], &case_r);
+            check_mix::<Relaxed>(rec, OPS[op as usize], class, Relaxed::forms_ri(op, &ra, &ii, true), &left[op as usize], &case_l);
+        }
+    }
+    if i.is_zero() {
+        rec.hit("div-by-zero-integer-panics");
+    }
+    if x.is_zero() {
+        rec.hit("integer/zero-rational-panics");
+    }
+    if !i.is_zero() && !x.is_zero() {
+        if !x.d.gcd(i).is_one() {
+            rec.hit("mul-int:gcd(den,int)>1");
+        }
+        if !x.n.gcd(i).is_one() {
+            rec.hit("div-int:gcd(num,int)>1");
+        }
+        if i.is_negative() {
+            rec.hit("negative-integer");
+        }
+    }
+    if right[0].as_ref().unwrap().is_zero() || right[1].as_ref().unwrap().is_zero() {
+        rec.hit("add/sub-int:zero-result");
+    }
+    if !(x.trivial() && i.abs() <= BigInt::one()) {
+        rec.nontrivial();
+    }
+}
+
+fn unary_lane<T: Rat>(rec: &mut Rec, v: &T, x: &Q, exps: &[usize], class: &str, sp: &str) {
+    let case = |f: &str| format!("{}({}){}", f, x.show(), sp);
+    check_forms::<T>(rec, "neg", class, T::forms_un(0, v), &Some(x.neg()), &|| case("neg"));
+    check_forms::<T>(rec, "inv", class, T::forms_un(1, v), &x.inv(), &|| case("inv"));
+    check_forms::<T>(rec, "sqr", class, T::forms_un(2, v), &Some(x.mul(x)), &|| case("sqr"));
+    let fr = x.sub(&Q::int(x.trunc()));
+    check_forms::<T>(rec, "fract", class, T::forms_un(3, v), &Some(fr.clone()), &|| case("fract"));
+    check_forms::<T>(rec, "cubic", class, vec![("", guard(|| v.cubic()))], &Some(x.mul(x).mul(x)), &|| case("cubic"));
+    check_forms::<T>(rec, "abs", class, vec![("", guard(|| v.clone().abs_val()))], &Some(x.abs()), &|| case("abs"));
+    let sg = Q::int(x.n.signum());
+    check_forms::<T>(rec, "signum", class, vec![("", guard(|| v.signum()))], &Some(sg), &|| case("signum"));
+    check_forms::<T>(rec, "mul<Sign>", class, vec![("(Negative)", guard(|| v.clone().mul_sign(Sign::Negative)))], &Some(x.neg()), &|| case("* Sign::Negative"));
+    check_forms::<T>(rec, "mul<Sign>", class, vec![("(Positive)", guard(|| v.clone().mul_sign(Sign::Positive)))], &Some(x.clone()), &|| case("* Sign::Positive"));
+    for &e in exps {
+        if x.is_zero() && e == 0 {
+            rec.hit("unspecified:0^0 (not judged)");
+            continue;
+        }
+        check_forms::<T>(rec, "pow", class, vec![("", guard(|| v.pow(e)))], &Some(x.pow(e as u32)), &|| format!("({}){}.pow({})", x.show(), sp, e));
+    }
+    // integer parts
+    match guard(|| v.ints()) {
+        Ok(g) => {
+            let want = [x.floor(), x.ceil(), x.trunc(), x.round_half_away()];
+            for (j, nm) in ["floor", "ceil", "trunc", "round"].iter().enumerate() {
+                judge_int(rec, &|| format!("{}::{}", T::NAME, nm), class, &Ok(g[j].clone()), &want[j], &|| case(nm));
+            }
+        }
+        Err(p) => rec.fail(format!("{}|{}::floor/ceil/trunc/round|panic|{}", P, T::NAME, class), case("floor.."), p, "integers"),
+    }
+    match guard(|| v.clone().split()) {
+        Ok((t, f)) => {
+            judge_int(rec, &|| format!("{}::split_at_point.0", T::NAME), class, &Ok(t), &x.trunc(), &|| case("split_at_point"));
+            judge::<T>(rec, &|| format!("{}::split_at_point.1", T::NAME), class, &Ok(f), &fr, &|| case("split_at_point"));
+        }
+        Err(p) => rec.fail(format!("{}|{}::split_at_point|panic|{}", P, T::NAME, class), case("split_at_point"), p, "(trunc, fract)"),
+    }
+    rec.step();
+    match guard(|| v.flags()) {
+        Ok(fl) => {
+            if fl != (x.is_zero(), x.n.is_one() && x.d.is_one()) {
+                rec.fail(format!("{}|{}::is_zero/is_one|wrong-value|{}", P, T::NAME, class), case("is_zero,is_one"), format!("{:?}", fl), format!("{:?}", (x.is_zero(), x.n.is_one() && x.d.is_one())));
+            }
+        }
+        Err(p) => rec.fail(format!("{}|{}::is_zero/is_one|panic|{}", P, T::NAME, class), case("is_zero,is_one"), p, "flags"),
+    }
+}
+
+/// unary functions and constructors for one value
+fn unary_case(rec: &mut Rec, x: &Q, exps: &[usize], kmax: i64) {
+    let a = RBig::mk(&x.n, &x.d);
+    unary_lane::<RBig>(rec, &a, x, exps, "closed", "");
+    // accessors and into_parts must tell the same story
+    rec.step();
+    let (pn, pd) = a.clone().into_parts();
+    if (i_to_ref(&pn), BigInt::from(u_to_ref(&pd))) != a.parts() {
+        rec.fail(format!("{}|RBig::into_parts|accessor-mismatch|closed", P), x.show(), format!("{}/{}", pn, pd), format!("{:?}", a.parts()));
+    }
+    for k in 1..=kmax {
+        let (xn, xd) = scaled(x, k);
+        let sp = format!(" [built from {}]", show_parts(&xn, &xd));
+        let case = || format!("from_parts({})", show_parts(&xn, &xd));
+        // every constructor must reduce: RBig::from_parts, from_parts_signed (both denominator signs), from_parts_const
+        judge::<RBig>(rec, &|| "RBig::from_parts".into(), "closed", &guard(|| RBig::mk(&xn, &xd)), x, &case);
+        judge::<RBig>(rec, &|| "RBig::from_parts_signed".into(), "closed", &guard(|| RBig::from_parts_signed(ref_to_i(&xn), ref_to_i(&xd))), x, &case);
+        judge::<RBig>(rec, &|| "RBig::from_parts_signed".into(), "closed", &guard(|| RBig::from_parts_signed(ref_to_i(&-&xn), ref_to_i(&-&xd))), x, &|| format!("from_parts_signed({}, {})", num(&-&xn), num(&-&xd)));
+        let (cn, cd) = (xn.abs().to_u128().unwrap() as DoubleWord, xd.to_u128().unwrap() as DoubleWord);
+        let sg = if xn.is_negative() { Sign::Negative } else { Sign::Positive };
+        judge::<RBig>(rec, &|| "RBig::from_parts_const".into(), "closed", &guard(|| RBig::from_parts_const(sg, cn, cd)), x, &|| format!("from_parts_const({:?}, {}, {})", sg, cn, cd));
+        judge::<Relaxed>(rec, &|| "Relaxed::from_parts_const".into(), "closed", &guard(|| Relaxed::from_parts_const(sg, cn, cd)), x, &|| format!("Relaxed::from_parts_const({:?}, {}, {})", sg, cn, cd));
+        judge::<Relaxed>(rec, &|| "Relaxed::from_parts_signed".into(), "closed", &guard(|| Relaxed::from_parts_signed(ref_to_i(&-&xn), ref_to_i(&-&xd))), x, &case);
+        let r = Relaxed::mk(&xn, &xd);
+        judge::<RBig>(rec, &|| "Relaxed::canonicalize".into(), "closed", &guard(|| r.clone().canonicalize()), x, &|| format!("Relaxed {} canonicalize", show_parts(&xn, &xd)));
+        if k == 2 {
+            // spelling 2n/2d is removed by reduce2: the stored form must equal the k = 1 form
+            rec.step();
+            if r.parts() != Relaxed::mk(&x.n, &x.d).parts() {
+                rec.hit("unspecified:Relaxed::from_parts keeps a common factor 2 (not judged)");
+            } else {
+                rec.hit("relaxed:from_parts-removes-factor-2");
+            }
+        } else {
+            unary_lane::<Relaxed>(rec, &r, x, exps, "closed", &sp);
+        }
+    }
+    judge::<Relaxed>(rec, &|| "RBig::relax".into(), "closed", &guard(|| a.clone().relax()), x, &|| format!("relax({})", x.show()));
+    judge::<Relaxed>(rec, &|| "RBig::as_relaxed".into(), "closed", &guard(|| a.as_relaxed().clone()), x, &|| format!("as_relaxed({})", x.show()));
+    if x.is_zero() {
+        rec.hit("inv(0)-must-panic");
+    }
+    if x.is_int() {
+        rec.hit("integer-valued");
+    }
+    if !x.trivial() {
+        rec.nontrivial();
+    }
+}
+
+
+/// shape fractions: cores a,b,c,d and a shared factor g placed so that the operands share g
+/// between denominators / numerator and denominator / numerators
+#[allow(clippy::too_many_arguments)]
+fn shape_case(rec: &mut Rec, a: &BigInt, b: &BigInt, c: &BigInt, d: &BigInt, g: &BigInt, place: usize, sx: bool, sy: bool) {
+    let (mut xn, mut xd, mut yn, mut yd) = (a.clone(), b.clone(), c.clone(), d.clone());
+    match place {
+        0 => { xd *= g; yd *= g; }
+        1 => { xn *= g; yd *= g; }
+        2 => { xd *= g; yn *= g; }
+        _ => { xn *= g; yn *= g; }
+    }
+    if sx { xn = -xn; }
+    if sy { yn = -yn; }
+    let (x, y) = (Q::new(xn.clone(), xd.clone()), Q::new(yn.clone(), yd.clone()));
+    let wmax = [&x.n, &x.d, &y.n, &y.d].iter().map(|v| word_len(v.magnitude())).max().unwrap();
+    let class = format!("shape,{}", size_class(wmax));
+    let class = class.as_str();
+    let sp = format!(" [x built from {}, y from {}]", show_parts(&xn, &xd), show_parts(&yn, &yd));
+    // RBig::from_parts must reduce the multi-word spelling
+    let ra = guard(|| RBig::mk(&xn, &xd));
+    let rb = guard(|| RBig::mk(&yn, &yd));
+    judge::<RBig>(rec, &|| "RBig::from_parts".into(), class, &ra, &x, &|| format!("from_parts({})", show_parts(&xn, &xd)));
+    judge::<RBig>(rec, &|| "RBig::from_parts".into(), class, &rb, &y, &|| format!("from_parts({})", show_parts(&yn, &yd)));
+    let wants = bin_wants(&x, &y);
+    // build the RBig operands from the reference's reduced parts so that a from_parts defect does
+    // not mask the operators
+    let (pa, pb) = (RBig::mk(&x.n, &x.d), RBig::mk(&y.n, &y.d));
+    lane_binary::<RBig>(rec, &pa, &pb, &x, &y, &wants, class, false, "");
+    // Relaxed operands keep the non-reduced spelling (only powers of two are removed)
+    let (la, lb) = (Relaxed::mk(&xn, &xd), Relaxed::mk(&yn, &yd));
+    lane_binary::<Relaxed>(rec, &la, &lb, &x, &y, &wants, class, false, &sp);
+    // mixed with the integer c*g (shares g with x)
+    let i = g * c * if sy { -BigInt::one() } else { BigInt::one() };
+    if rec_wants_mixed(place) {
+        let qi = Q::int(i.clone());
+        let ii = ref_to_i(&i);
+        let right: [Option<Q>; 4] = [Some(x.add(&qi)), Some(x.sub(&qi)), Some(x.mul(&qi)), x.div(&qi)];
+        let left: [Option<Q>; 4] = [Some(qi.add(&x)), Some(qi.sub(&x)), Some(qi.mul(&x)), qi.div(&x)];
+        for op in 0..4u8 {
+            let mut fr = RBig::forms_ri(op, &pa, &ii, false);
+            let mut fl = RBig::forms_ri(op, &pa, &ii, true);
+            // (ref,ref) of IBig and, when present, of UBig
+            fr.retain(|f| f.2 == "(ref,ref)");
+            fl.retain(|f| f.2 == "(val,val)");
+            check_mix::<RBig>(rec, OPS[op as usize], class, fr, &right[op as usize], &|| format!("{} {} int {}", x.show(), SYM[op as usize], num(&i)));
+            check_mix::<RBig>(rec, OPS[op as usize], class, fl, &left[op as usize], &|| format!("int {} {} {}", num(&i), SYM[op as usize], x.show()));
+            let mut fr = Relaxed::forms_ri(op, &la, &ii, false);
+            let mut fl = Relaxed::forms_ri(op, &la, &ii, true);
+            fr.retain(|f| f.2 == "(ref,ref)");
+            fl.retain(|f| f.2 == "(val,val)");
+            check_mix::<Relaxed>(rec, OPS[op as usize], class, fr, &right[op as usize], &|| format!("{} {} int {}{}", x.show(), SYM[op as usize], num(&i), sp));
+            check_mix::<Relaxed>(rec, OPS[op as usize], class, fl, &left[op as usize], &|| format!("int {} {} {}{}", num(&i), SYM[op as usize], x.show(), sp));
+        }
+    }
+    // unary on x
+    check_forms::<RBig>(rec, "inv", class, RBig::forms_un(1, &pa), &x.inv(), &|| format!("inv({})", x.show()));
+    check_forms::<RBig>(rec, "sqr", class, RBig::forms_un(2, &pa), &Some(x.mul(&x)), &|| format!("sqr({})", x.show()));
+    check_forms::<RBig>(rec, "fract", class, RBig::forms_un(3, &pa), &Some(x.sub(&Q::int(x.trunc()))), &|| format!("fract({})", x.show()));
+    check_forms::<Relaxed>(rec, "inv", class, Relaxed::forms_un(1, &la), &x.inv(), &|| format!("inv({}){}", x.show(), sp));
+    check_forms::<Relaxed>(rec, "fract", class, Relaxed::forms_un(3, &la), &Some(x.sub(&Q::int(x.trunc()))), &|| format!("fract({}){}", x.show(), sp));
+    judge::<RBig>(rec, &|| "Relaxed::canonicalize".into(), class, &guard(|| la.clone().canonicalize()), &x, &|| format!("Relaxed {} canonicalize", show_parts(&xn, &xd)));
+    pair_classes(rec, &x, &y, &wants);
+    let gw = word_len(x.d.gcd(&y.d).magnitude());
+    rec.hit(match gw { 0 | 1 => "gcd(denominators):1-word", 2 => "gcd(denominators):2-words", _ => "gcd(denominators):3+words(Lehmer)" });
+    if wmax >= 3 {
+        rec.hit("operand-component>=3words(heap)");
+    }
+    if xn.gcd(&xd).bits() > 128 {
+        rec.hit("from_parts:reduces-by-3+word-gcd");
+    }
+    rec.nontrivial();
+}
+
+fn rec_wants_mixed(place: usize) -> bool {
+    place == 1 || place == 2
+}
+
+// ---------------------------------------------------------------------------------------------
+// histories (DESIGN §3.2): model-side BFS over value states, every state re-materialised on real
+// objects by replaying its shortest path, every transition executed in all call forms
+
+#[derive(Clone, Copy, PartialEq, Eq, Hash, Debug)]
+struct St {
+    r: [R; 2],
+    k: i128,
+}
+
+enum MOut {
+    Next(St),
+    DivZero,
+    Pruned,
+}
+
+fn transitions() -> Vec<Tr> {
+    let mut t = vec![];
+    for op in 0..5u8 {
+        for (d, s) in [(0u8, 1u8), (1, 0), (0, 0), (1, 1)] {
+            t.push(Tr::RR(op, d, s));
+        }
+    }
+    for op in 0..4u8 {
+        for s in 0..2u8 {
+            t.push(Tr::RI(op, s, false));
+            t.push(Tr::RI(op, s, true));
+        }
+    }
+    for op in 0..4u8 {
+        for s in 0..2u8 {
+            t.push(Tr::Un(op, s));
+        }
+    }
+    for s in 0..2u8 {
+        t.push(Tr::K(0, s));
+        t.push(Tr::K(1, s));
+    }
+    t.push(Tr::K(2, 0));
+    t
+}
+
+fn fits(v: i128, cap: u32) -> bool {
+    128 - v.unsigned_abs().leading_zeros() <= cap
+}
+
+/// Ok(Some(v)) value, Ok(None) division by zero, Err(()) a component exceeds the cap
+fn m_bin(op: u8, a: R, b: R, cap: u32) -> Result<Option<R>, ()> {
+    if op >= 3 && b.0 == 0 {
+        return Ok(None);
+    }
+    let fast = match op {
+        0 => r_add(a, b),
+        1 => r_sub(a, b),
+        2 => r_mul(a, b),
+        3 => r_div(a, b),
+        _ => r_rem(a, b),
+    };
+    let v = match fast {
+        Some(v) => v,
+        None => {
+            let (qa, qb) = (Q::from_r(a), Q::from_r(b));
+            let q = match op {
+                0 => qa.add(&qb),
+                1 => qa.sub(&qb),
+                2 => qa.mul(&qb),
+                3 => qa.div(&qb).unwrap(),
+                _ => qa.rem(&qb).unwrap(),
+            };
+            match q.to_r(cap as u64) {
+                Some(v) => v,
+                None => return Err(()),
+            }
+        }
+    };
+    if fits(v.0, cap) && fits(v.1, cap) {
+        Ok(Some(v))
+    } else {
+        Err(())
+    }
+}
+
+fn model(st: &St, tr: Tr, cap: u32) -> MOut {
+    let mut n = *st;
+    let put = |n: &mut St, slot: usize, v: Result<Option<R>, ()>| match v {
+        Ok(Some(v)) => {
+            n.r[slot] = v;
+            MOut::Next(*n)
+        }
+        Ok(None) => MOut::DivZero,
+        Err(()) => MOut::Pruned,
+    };
+    match tr {
+        Tr::RR(op, d, s) => {
+            let v = m_bin(op, st.r[d as usize], st.r[s as usize], cap);
+            put(&mut n, d as usize, v)
+        }
+        Tr::RI(op, s, left) => {
+            let kq = (st.k, 1);
+            let v = if left { m_bin(op, kq, st.r[s as usize], cap) } else { m_bin(op, st.r[s as usize], kq, cap) };
+            put(&mut n, s as usize, v)
+        }
+        Tr::Un(op, s) => {
+            let x = st.r[s as usize];
+            let v = match op {
+                0 => Ok(Some((-x.0, x.1))),
+                1 => {
+                    if x.0 == 0 {
+                        Ok(None)
+                    } else {
+                        Ok(r_norm(x.1, x.0))
+                    }
+                }
+                2 => m_bin(2, x, x, cap),
+                _ => Ok(r_norm(x.0 % x.1, x.1)),
+            };
+            put(&mut n, s as usize, v)
+        }
+        Tr::K(kind, s) => {
+            let x = st.r[s as usize];
+            let v: Option<i128> = match kind {
+                0 => Some(x.0 / x.1),
+                1 => match r_round_half_away(x) {
+                    Some(v) => Some(v),
+                    None => Q::from_r(x).round_half_away().to_i128(),
+                },
+                _ => {
+                    if st.r[1].0 == 0 {
+                        return MOut::DivZero;
+                    }
+                    match r_div_euclid(st.r[0], st.r[1]) {
+                        Some(v) => Some(v),
+                        None => Q::from_r(st.r[0]).div_euclid(&Q::from_r(st.r[1])).unwrap().to_i128(),
+                    }
+                }
+            };
+            match v {
+                Some(v) if fits(v, cap) => {
+                    n.k = v;
+                    MOut::Next(n)
+                }
+                _ => MOut::Pruned,
+            }
+        }
+    }
+}
+
+/// compact stored form of a state (all components fit 62 bits by the cap)
+type Sk = [i64; 5];
+fn pack(s: &St) -> Sk {
+    [s.r[0].0 as i64, s.r[0].1 as i64, s.r[1].0 as i64, s.r[1].1 as i64, s.k as i64]
+}
+fn unpack(k: &Sk) -> St {
+    St { r: [(k[0] as i128, k[1] as i128), (k[2] as i128, k[3] as i128)], k: k[4] as i128 }
+}
+
+struct Hist {
+    states: Vec<Sk>,
+    parent: Vec<(u32, u16)>,
+    depth: Vec<u8>,
+    /// states[..expand] have depth < max depth and are expanded by the sweep
+    expand: usize,
+    pruned: u64,
+    div_zero: u64,
+    edges: u64,
+    per_depth: Vec<u64>,
+    total: u64,
+}
+
+fn explore(starts: &[St], trs: &[Tr], max_depth: u8, cap: u32) -> Hist {
+    assert!(cap <= 62);
+    let mut h = Hist { states: vec![], parent: vec![], depth: vec![], expand: 0, pruned: 0, div_zero: 0, edges: 0, per_depth: vec![0; max_depth as usize + 1], total: 0 };
+    let mut seen: std::collections::HashSet<Sk> = std::collections::HashSet::new();
+    for s in starts {
+        if seen.insert(pack(s)) {
+            h.states.push(pack(s));
+            h.parent.push((u32::MAX, 0));
+            h.depth.push(0);
+            h.per_depth[0] += 1;
+            h.total += 1;
+        }
+    }
+    let mut i = 0usize;
+    while i < h.states.len() {
+        let d = h.depth[i];
+        if d >= max_depth {
+            break;
+        }
+        let st = unpack(&h.states[i]);
+        for (ti, &tr) in trs.iter().enumerate() {
+            h.edges += 1;
+            match model(&st, tr, cap) {
+                MOut::Next(n) => {
+                    if seen.insert(pack(&n)) {
+                        h.per_depth[d as usize + 1] += 1;
+                        h.total += 1;
+                        // states of the last depth are checked as results but never expanded: only
+                        // their membership is kept
+                        if d + 1 < max_depth {
+                            h.states.push(pack(&n));
+                            h.parent.push((i as u32, ti as u16));
+                            h.depth.push(d + 1);
+                        }
+                    }
+                }
+                MOut::DivZero => h.div_zero += 1,
+                MOut::Pruned => h.pruned += 1,
+            }
+        }
+        i += 1;
+    }
+    h.expand = i;
+    h
+}
+
+fn describe(tr: Tr) -> String {
+    match tr {
+        Tr::RR(op, d, s) => format!("r{} {}= r{}", d, SYM[op as usize], s),
+        Tr::RI(op, s, false) => format!("r{} = r{} {} k", s, s, SYM[op as usize]),
+        Tr::RI(op, s, true) => format!("r{} = k {} r{}", s, SYM[op as usize], s),
+        Tr::Un(op, s) => format!("r{} = {}(r{})", s, UN[op as usize], s),
+        Tr::K(2, _) => "k = r0.div_euclid(r1)".to_string(),
+        Tr::K(kind, s) => format!("k = {}(r{})", KN[kind as usize], s),
+    }
+}
+
+fn show_st(st: &St) -> String {
+    format!("(r0={}, r1={}, k={})", Q::from_r(st.r[0]).show(), Q::from_r(st.r[1]).show(), st.k)
+}
+
+/// expected result of one transition, computed on BigInt fractions (independent of the i128 model)
+enum Want {
+    Rat(Option<Q>),
+    Int(Option<BigInt>),
+}
+
+fn want_of(q: &[Q; 2], k: &BigInt, tr: Tr) -> Want {
+    let bin = |op: u8, a: &Q, b: &Q| match op {
+        0 => Some(a.add(b)),
+        1 => Some(a.sub(b)),
+        2 => Some(a.mul(b)),
+        3 => a.div(b),
+        _ => a.rem(b),
+    };
+    match tr {
+        Tr::RR(op, d, s) => Want::Rat(bin(op, &q[d as usize], &q[s as usize])),
+        Tr::RI(op, s, left) => {
+            let kq = Q::int(k.clone());
+            Want::Rat(if left { bin(op, &kq, &q[s as usize]) } else { bin(op, &q[s as usize], &kq) })
+        }
+        Tr::Un(op, s) => {
+            let x = &q[s as usize];
+            Want::Rat(match op {
+                0 => Some(x.neg()),
+                1 => x.inv(),
+                2 => Some(x.mul(x)),
+                _ => Some(x.sub(&Q::int(x.trunc()))),
+            })
+        }
+        Tr::K(kind, s) => Want::Int(match kind {
+            0 => Some(q[s as usize].trunc()),
+            1 => Some(q[s as usize].round_half_away()),
+            _ => q[0].div_euclid(&q[1]),
+        }),
+    }
+}
+
+fn materialise<T: Rat>(start: &St, spell: i128, path: &[u16], trs: &[Tr]) -> Result<([T; 2], IBig), String> {
+    guard(|| {
+        let mk = |r: R| T::mk(&BigInt::from(r.0 * spell), &BigInt::from(r.1 * spell));
+        let mut pool = [mk(start.r[0]), mk(start.r[1])];
+        let mut k = IBig::from(start.k);
+        for &t in path {
+            T::apply(&mut pool, &mut k, trs[t as usize]);
+        }
+        (pool, k)
+    })
+}
+
+fn history_lane<T: Rat>(rec: &mut Rec, h: &Hist, trs: &[Tr], i: usize, spell: i128, path: &[u16], start: &St, pathtxt: &str) {
+    let st = unpack(&h.states[i]);
+    let (pool, k) = match materialise::<T>(start, spell, path, trs) {
+        Ok(x) => x,
+        Err(p) => {
+            rec.fail(format!("{}|{}::history-replay|panic|history", P, T::NAME), pathtxt.to_string(), p, show_st(&st));
+            return;
+        }
+    };
+    let q = [Q::from_r(st.r[0]), Q::from_r(st.r[1])];
+    let kb = BigInt::from(st.k);
+    // the replayed state must be the state the model says (invariants in every state)
+    for s in 0..2 {
+        if !judge::<T>(rec, &|| format!("{}::history-state", T::NAME), "history", &Ok(pool[s].clone()), &q[s], &|| format!("slot r{} after {}", s, pathtxt)) {
+            return;
+        }
+        if !T::STRICT && pool[s].parts() != (q[s].n.clone(), q[s].d.clone()) {
+            rec.hit("relaxed:state-holds-unreduced-value");
+        }
+    }
+    if !judge_int(rec, &|| format!("{}::history-state.k", T::NAME), "history", &Ok(k.clone()), &kb, &|| format!("integer slot after {}", pathtxt)) {
+        return;
+    }
+    for &tr in trs {
+        let case = || format!("{} then {}", pathtxt, describe(tr));
+        let want = want_of(&q, &kb, tr);
+        // model cross-check (i128 fast path against BigInt fractions)
+        if T::STRICT {
+            match (model(&st, tr, HCAP), &want) {
+                (MOut::Next(n), Want::Rat(Some(w))) => {
+                    let slot = match tr { Tr::RR(_, d, _) => d, Tr::RI(_, s, _) | Tr::Un(_, s) => s, Tr::K(..) => 9 } as usize;
+                    if slot > 1 || Q::from_r(n.r[slot]) != *w {
+                        rec.hit("MACHINERY:model-mismatch");
+                    }
+                    if w.is_zero() {
+                        rec.hit("result-zero");
+                    }
+                }
+                (MOut::Next(n), Want::Int(Some(w))) => {
+                    if BigInt::from(n.k) != *w {
+                        rec.hit("MACHINERY:model-mismatch");
+                    }
+                }
+                (MOut::DivZero, Want::Rat(None)) | (MOut::DivZero, Want::Int(None)) => rec.hit("division-by-zero-panics"),
+                (MOut::Pruned, Want::Rat(Some(_))) | (MOut::Pruned, Want::Int(Some(_))) => rec.hit("pruned(checked, not expanded)"),
+                _ => rec.hit("MACHINERY:model-mismatch"),
+            }
+        }
+        match (tr, want) {
+            (Tr::RR(op, d, s), Want::Rat(w)) => {
+                if d == s {
+                    rec.hit("operator-applied-to-a-slot-and-itself");
+                }
+                check_forms::<T>(rec, OPS[op as usize], "history", T::forms_rr(op, &pool[d as usize], &pool[s as usize]), &w, &case);
+            }
+            (Tr::RI(op, s, left), Want::Rat(w)) => {
+                check_mix::<T>(rec, OPS[op as usize], "history", T::forms_ri(op, &pool[s as usize], &k, left), &w, &case);
+            }
+            (Tr::Un(op, s), Want::Rat(w)) => {
+                check_forms::<T>(rec, UN[op as usize], "history", T::forms_un(op, &pool[s as usize]), &w, &case);
+            }
+            (Tr::K(kind, s), Want::Int(w)) => {
+                check_int_forms::<T>(rec, KN[kind as usize], "history", T::forms_k(kind, s as usize, &pool), &w, &case);
+            }
+            _ => rec.hit("MACHINERY:model-mismatch"),
+        }
+    }
+}
 
 pub fn run(ctx: &mut Ctx) {
-    ctx.machinery("check C04 is not built yet");
+    ctx.rule = "closed universe: every ordered pair of Q(N,D) = all reduced n/d with |n| <= N, 1 <= d <= D, for + - * / % (six call forms each), div_euclid / rem_euclid / div_rem_euclid (four forms), on RBig and on Relaxed in every stored spelling k*n/k*d; Q(N,D) x integer list for the mixed operators with UBig/IBig on either side (four forms); every value of Q(Nu,Du) for neg abs inv sqr cubic pow signum fract trunc floor ceil round split_at_point and the constructors in spellings k = 1..3; shape fractions (a*g)/(b) , a/(b*g) with multi-word cores a,b,c,d and shared factor g in all four placements and all sign pairs; histories: breadth-first exploration of a pool (r0, r1, k) of two rationals and one integer under 49 transitions, every state re-materialised on real RBig and Relaxed objects by replaying its shortest operation path through in-place forms, every transition executed in all call forms. non-trivial = operands not all in {0, +-1}; every counted step is one dashu operation compared with the exact reference fraction".into();
+    ctx.assume("num_bigint 0.4 / num_integer gcd are a correct reference (cross-checked in every run against checked i128 fractions, f64, plain Euclid and the definitions of % and Euclidean division on Q(9,9)^2)");
+    ctx.assume("Relaxed is judged by value only (denominator != 0 and value == exact result == RBig result); its stored form is recorded in the histogram but not judged");
+    ctx.assume("the spelling 2n/2d cannot be stored in a Relaxed (from_parts removes common powers of two; verified for every value in closed.unary), so the stored non-reduced spellings are k = 1, 3 (and 5 in the thorough tier)");
+    ctx.assume("history states are value states (numerator, denominator of each slot; integer capacity is not observable by rational operations); each is re-materialised through its shortest operation path only, so other Relaxed spellings of the same value reached by longer paths are not expanded");
+    ctx.assume("0^0 is not specified for rationals and is not judged");
+    self_check(ctx);
+
+    // ---- closed universe -------------------------------------------------------------------
+    let (nq, dq) = ctx.pick((10, 10), (20, 20));
+    let qs = q_universe(nq, dq);
+    let n = qs.len() as u64;
+    let ks: Vec<i64> = ctx.pick(vec![1, 3], vec![1, 3, 5]);
+    ctx.bound("closed_Q_N_D", serde_json::json!([nq, dq]));
+    ctx.bound("closed_Q_values", n);
+    ctx.bound("relaxed_spellings_k", serde_json::json!(ks));
+    let (qr, ksr) = (&qs, &ks);
+    ctx.sweep("closed.pairs", n * n, |i, rec| {
+        let (x, y) = (&qr[(i / n) as usize], &qr[(i % n) as usize]);
+        closed_pair(rec, x, y, ksr);
+        rec.sample(|| format!("{} (+ - * / % euclid) {}", x.show(), y.show()));
+    });
+    ctx.require_classes(
+        "closed.pairs",
+        &["add:gbd=1", "add:gbd>1,zero-result", "add:gbd>1,hint-gcd=1", "add:gbd>1,hint-gcd=gbd", "add:gbd>1,1<hint-gcd<gbd", "sub:zero-result", "zero-numerator-operand", "mul:no-cross-cancel", "mul:cross-cancel-one", "mul:cross-cancel-both", "div:no-cancel", "div:cancel-one", "div:cancel-both", "div,rem:by-zero-panics", "div:negative-divisor", "rem:zero", "rem:tie-rounds-away", "rem:quotient-rounded-toward-zero", "rem:quotient-rounded-away", "euclid:exact", "euclid:negative-dividend", "integer-valued-operand", "relaxed:non-reduced-operand", "relaxed:result-stored-unreduced"],
+    );
+
+    // ---- mixed with integers ---------------------------------------------------------------
+    let mut ints: Vec<BigInt> = vec![];
+    for v in 0..=(nq.max(12)) {
+        ints.push(BigInt::from(v));
+        if v != 0 {
+            ints.push(BigInt::from(-v));
+        }
+    }
+    let one = BigInt::one();
+    for big in [&one << 63u32, (&one << 64u32) - 1u32, &one << 64u32, (&one << 64u32) + 1u32, (&one << 64u32) * 3u32, (&one << 128u32) - 1u32, &one << 128u32, (&one << 128u32) * 35u32, BigInt::from(shape(5, "lcgA", 0)) * 6u32] {
+        ints.push(-big.clone());
+        ints.push(big);
+    }
+    let ni = ints.len() as u64;
+    ctx.bound("mixed_integers", ni);
+    let ir = &ints;
+    ctx.sweep("closed.mixed", n * ni, |i, rec| {
+        let (x, k) = (&qr[(i / ni) as usize], &ir[(i % ni) as usize]);
+        mixed_case(rec, x, k, ksr, if k.bits() <= 64 { "closed" } else { "closed,multiword-int" });
+        rec.sample(|| format!("{} (+ - * /) int {} on either side", x.show(), num(k)));
+    });
+    ctx.require_classes("closed.mixed", &["div-by-zero-integer-panics", "integer/zero-rational-panics", "mul-int:gcd(den,int)>1", "div-int:gcd(num,int)>1", "negative-integer", "add/sub-int:zero-result"]);
+
+    // ---- unary + constructors --------------------------------------------------------------
+    let (nu, du) = ctx.pick((16, 16), (40, 40));
+    let us = q_universe(nu, du);
+    let nuv = us.len() as u64;
+    let mut exps: Vec<usize> = (0..=ctx.pick(8usize, 12)).collect();
+    if !ctx.quick() {
+        exps.extend_from_slice(&[16, 31, 32, 33, 64]);
+    }
+    ctx.bound("unary_Q_N_D", serde_json::json!([nu, du]));
+    ctx.bound("unary_Q_values", nuv);
+    ctx.bound("pow_exponents", serde_json::json!(exps));
+    let (ur, er) = (&us, &exps);
+    ctx.sweep("closed.unary", nuv, |i, rec| {
+        let x = &ur[i as usize];
+        unary_case(rec, x, er, 3);
+        rec.sample(|| format!("unary functions, pow, constructors of {}", x.show()));
+    });
+    ctx.require_classes("closed.unary", &["inv(0)-must-panic", "integer-valued", "relaxed:from_parts-removes-factor-2", "relaxed:result-stored-unreduced"]);
+
+    // ---- shape fractions -------------------------------------------------------------------
+    let seed = ctx.seed;
+    let bi = move |n: usize, p: &str| BigInt::from(shape(n, p, seed));
+    let mut cores: Vec<BigInt> = vec![BigInt::one(), bi(1, "lcgA") | BigInt::one(), bi(2, "top1p1"), bi(3, "lcgB"), bi(4, "sparse")];
+    let mut gs: Vec<BigInt> = vec![BigInt::one(), BigInt::from(3), BigInt::one() << 32u32, bi(1, "ones"), bi(2, "ones"), bi(3, "lcgSeed"), bi(8, "alt")];
+    if !ctx.quick() {
+        cores.extend([bi(2, "lcgSeed"), bi(8, "lcgA")]);
+        gs.extend([bi(2, "lcgA"), bi(3, "lcgA"), bi(5, "top1")]);
+    }
+    let mut numers = vec![BigInt::zero()];
+    numers.extend(cores.iter().cloned());
+    let (nn, nd, ng) = (numers.len() as u64, cores.len() as u64, gs.len() as u64);
+    ctx.bound("shape_cores", nd);
+    ctx.bound("shape_shared_factors", ng);
+    ctx.bound("shape_max_words", serde_json::json!(cores.iter().chain(gs.iter()).map(|v| word_len(v.magnitude())).max().unwrap()));
+    let (numr, corr, gr) = (&numers, &cores, &gs);
+    ctx.sweep("shape.pairs", nn * nd * nn * nd * ng * 16, |i, rec| {
+        let [ia, ib, ic, id, ig, pl, sg] = unflatten(i, [nn, nd, nn, nd, ng, 4, 4]);
+        shape_case(rec, &numr[ia], &corr[ib], &numr[ic], &corr[id], &gr[ig], pl, sg & 1 == 1, sg & 2 == 2);
+        rec.sample(|| format!("cores #{},#{},#{},#{} shared factor #{} ({} words) placement {} signs {}", ia, ib, ic, id, ig, word_len(gr[ig].magnitude()), pl, sg));
+    });
+    ctx.require_classes(
+        "shape.pairs",
+        &["add:gbd=1", "add:gbd>1,zero-result", "add:gbd>1,hint-gcd=1", "add:gbd>1,hint-gcd=gbd", "add:gbd>1,1<hint-gcd<gbd", "mul:cross-cancel-one", "mul:cross-cancel-both", "div:cancel-one", "div:cancel-both", "zero-numerator-operand", "integer-valued-operand", "gcd(denominators):1-word", "gcd(denominators):2-words", "gcd(denominators):3+words(Lehmer)", "operand-component>=3words(heap)", "from_parts:reduces-by-3+word-gcd", "rem:zero", "div,rem:by-zero-panics"],
+    );
+
+    // large operands (thorough): 8/40-word cores, 3/40/100-word shared factors
+    if !ctx.quick() {
+        let lcores: Vec<BigInt> = vec![BigInt::one(), bi(8, "lcgB"), bi(40, "lcgB")];
+        let lgs: Vec<BigInt> = vec![BigInt::one(), bi(3, "lcgA"), bi(40, "lcgA"), bi(100, "sparse")];
+        let mut lnum = vec![BigInt::zero()];
+        lnum.extend(lcores.iter().cloned());
+        let (ln, ld, lg) = (lnum.len() as u64, lcores.len() as u64, lgs.len() as u64);
+        ctx.bound("shape_large_max_words", 100u64);
+        let (lnr, lcr, lgr) = (&lnum, &lcores, &lgs);
+        ctx.sweep("shape.large", ln * ld * ln * ld * lg * 16, |i, rec| {
+            let [ia, ib, ic, id, ig, pl, sg] = unflatten(i, [ln, ld, ln, ld, lg, 4, 4]);
+            shape_case(rec, &lnr[ia], &lcr[ib], &lnr[ic], &lcr[id], &lgr[ig], pl, sg & 1 == 1, sg & 2 == 2);
+            rec.sample(|| format!("large cores #{},#{},#{},#{} shared factor #{} ({} words) placement {} signs {}", ia, ib, ic, id, ig, word_len(lgr[ig].magnitude()), pl, sg));
+        });
+        ctx.require_classes("shape.large", &["add:gbd>1,1<hint-gcd<gbd", "add:gbd>1,hint-gcd=1", "add:gbd>1,zero-result", "mul:cross-cancel-both", "div:cancel-both", "gcd(denominators):3+words(Lehmer)", "from_parts:reduces-by-3+word-gcd"]);
+    }
+
+    // pow / cubic of shape fractions
+    let pexps: Vec<usize> = ctx.pick(vec![0, 1, 2, 3, 5], vec![0, 1, 2, 3, 4, 5, 7, 16]);
+    let np = pexps.len() as u64;
+    let pr = &pexps;
+    ctx.sweep("shape.pow", nn * nd * ng * 4 * np, |i, rec| {
+        let [ia, ib, ig, v, ie] = unflatten(i, [nn, nd, ng, 4, np]);
+        let (mut xn, mut xd) = (numr[ia].clone(), corr[ib].clone());
+        if v & 1 == 1 { xn *= &gr[ig]; } else { xd *= &gr[ig]; }
+        if v & 2 == 2 { xn = -xn; }
+        let x = Q::new(xn.clone(), xd.clone());
+        let e = pr[ie];
+        if x.is_zero() && e == 0 {
+            rec.hit("unspecified:0^0 (not judged)");
+            return;
+        }
+        if (x.n.bits() + x.d.bits()) * e as u64 > 64 * 1200 {
+            rec.hit("pruned-result-too-large");
+            return;
+        }
+        let class = format!("shape,{}", size_class(word_len(x.n.magnitude()).max(word_len(x.d.magnitude()))));
+        let want = Some(x.pow(e as u32));
+        let a = RBig::mk(&x.n, &x.d);
+        let l = Relaxed::mk(&xn, &xd);
+        check_forms::<RBig>(rec, "pow", &class, vec![("", guard(|| a.pow(e)))], &want, &|| format!("({}).pow({})", x.show(), e));
+        check_forms::<Relaxed>(rec, "pow", &class, vec![("", guard(|| l.pow(e)))], &want, &|| format!("(Relaxed {}).pow({})", show_parts(&xn, &xd), e));
+        if e == 3 {
+            check_forms::<RBig>(rec, "cubic", &class, vec![("", guard(|| a.cubic()))], &want, &|| format!("cubic({})", x.show()));
+            check_forms::<Relaxed>(rec, "cubic", &class, vec![("", guard(|| l.cubic()))], &want, &|| format!("cubic(Relaxed {})", show_parts(&xn, &xd)));
+        }
+        if e >= 2 && !x.trivial() {
+            rec.nontrivial();
+        }
+        rec.sample(|| format!("({}).pow({})", x.show(), e));
+    });
+
+    // ---- histories -------------------------------------------------------------------------
+    let trs = transitions();
+    let starts: Vec<St> = vec![
+        St { r: [(0, 1), (1, 1)], k: 1 },
+        St { r: [(-1, 1), (1, 2)], k: 2 },
+        St { r: [(-2, 3), (3, 2)], k: -3 },
+        St { r: [(1, 2), (-2, 3)], k: 0 },
+        St { r: [(1, 1), (-1, 1)], k: -1 },
+        St { r: [(3, 2), (0, 1)], k: 3 },
+    ];
+    let (hd, cap) = ctx.pick((4u8, HCAP), (5u8, HCAP));
+    let t0 = std::time::Instant::now();
+    let hist = explore(&starts, &trs, hd, cap);
+    let model_s = t0.elapsed().as_secs_f64();
+    ctx.bound("history_depth", hd as u64);
+    ctx.bound("history_component_bits_cap", cap as u64);
+    ctx.bound("history_transitions_per_state", trs.len() as u64);
+    ctx.bound("history_start_states", starts.len() as u64);
+    ctx.bound("history_states", hist.total);
+    ctx.bound("history_states_per_depth", serde_json::json!(hist.per_depth));
+    ctx.bound("history_states_expanded", hist.expand as u64);
+    ctx.bound("history_model_seconds", (model_s * 100.0).round() / 100.0);
+    let (hr, tr) = (&hist, &trs);
+    ctx.sweep("history.bfs", hist.expand as u64, |i, rec| {
+        let i = i as usize;
+        let mut path: Vec<u16> = vec![];
+        let mut j = i;
+        while hr.parent[j].0 != u32::MAX {
+            path.push(hr.parent[j].1);
+            j = hr.parent[j].0 as usize;
+        }
+        path.reverse();
+        let start = unpack(&hr.states[j]);
+        let pathtxt = format!("start {} path [{}] reaching {}", show_st(&start), path.iter().map(|&t| describe(tr[t as usize])).collect::<Vec<_>>().join("; "), show_st(&unpack(&hr.states[i])));
+        // RBig start values are built from the spelling 2n/2d (6/4 -> 3/2), Relaxed ones from 3n/3d
+        history_lane::<RBig>(rec, hr, tr, i, 2, &path, &start, &pathtxt);
+        history_lane::<Relaxed>(rec, hr, tr, i, 3, &path, &start, &pathtxt);
+        rec.hit(["depth-0", "depth-1", "depth-2", "depth-3", "depth-4", "depth-5", "depth-6"][hr.depth[i] as usize]);
+        let st = &unpack(&hr.states[i]);
+        if !(Q::from_r(st.r[0]).trivial() && Q::from_r(st.r[1]).trivial() && st.k.abs() <= 1) {
+            rec.nontrivial();
+        }
+        rec.sample(|| pathtxt.clone());
+    });
+    let mism = ctx.sweeps.last().map(|s| s.classes.get("MACHINERY:model-mismatch").copied().unwrap_or(0)).unwrap_or(0);
+    if mism != 0 {
+        ctx.machinery(format!("history: the i128 model and the BigInt fractions disagree on {} transitions", mism));
+    }
+    if matches!(ctx.mode, crate::core::Mode::Run) {
+        if let Some(sw) = ctx.sweeps.last_mut() {
+            sw.states = hist.total;
+            sw.extra.insert("max_depth".into(), serde_json::json!(hd));
+            sw.extra.insert("states_total".into(), serde_json::json!(hist.total));
+            sw.extra.insert("states_expanded".into(), serde_json::json!(hist.expand));
+            sw.extra.insert("model_edges".into(), serde_json::json!(hist.edges));
+            sw.extra.insert("model_edges_division_by_zero".into(), serde_json::json!(hist.div_zero));
+            sw.extra.insert("pruned".into(), serde_json::json!(hist.pruned));
+        }
+    }
+    let last = ["depth-0", "depth-1", "depth-2", "depth-3", "depth-4", "depth-5"][(hd - 1) as usize];
+    ctx.require_classes("history.bfs", &[last, "division-by-zero-panics", "result-zero", "operator-applied-to-a-slot-and-itself", "relaxed:state-holds-unreduced-value", "relaxed:result-stored-unreduced"]);
 }
